@@ -660,4 +660,72 @@ theorem passSmall_pres (Q : Int → Nat → Prop) (hS : Stable Q) (L : Int → N
   rw [hr]
   exact ⟨hall, hend⟩
 
+/-! ### without listener steps the small-step pass is the sequential pass -/
+
+theorem sendSmall_nil (snap : Msg Rec) (outcome : Nat → Nat × Int) :
+    sendSmall true snap outcome (fun _ => []) = sendOne snap outcome := by
+  funext st it
+  unfold sendSmall sendOne
+  simp only [applyInc, List.foldl_nil]
+  cases h : st.peers[it.1]? with
+  | none => rfl
+  | some e0 =>
+    have hlt : it.1 < st.peers.length := (List.getElem?_eq_some_iff.mp h).1
+    simp [List.getElem?_set_self hlt, List.set_set, sendPeer, book]
+
+theorem decideSmall_nil (cfg : Periods) (self : String) (now : Int) (q : Bool)
+    (ps : List (String × Peer Rec)) (ol : List (Nat × MsgType × Nat)) (i : Nat) (e : String × Peer Rec)
+    (h : ps[i]? = some e) :
+    decideSmall cfg self now (fun _ => q) (fun _ => []) (ps, ol) i =
+      (ps, ol ++ (match decideEntry cfg self now q e with
+                  | some ts => [(i, ts)]
+                  | none => [])) := by
+  unfold decideSmall decideEntry decideOne
+  simp only [applyInc, List.foldl_nil, h]
+  by_cases hs : e.1 = self
+  · simp [hs]
+  · simp only [hs, if_false]
+    cases selectMode cfg (now - e.2.lastComms) (now - e.2.lastAttempt) q e.2.sizeStash <;> simp
+
+theorem decidePhase_cons (cfg : Periods) (self : String) (now : Int) (q : Bool) (e : String × Peer Rec)
+    (rest : List (String × Peer Rec)) :
+    decidePhase cfg self now q (e :: rest) =
+      match decideEntry cfg self now q e with
+      | some t => (0, t) :: (decidePhase cfg self now q rest).map (fun it => (it.1 + 1, it.2))
+      | none => (decidePhase cfg self now q rest).map (fun it => (it.1 + 1, it.2)) := rfl
+
+theorem decideFold_nil (cfg : Periods) (self : String) (now : Int) (q : Bool) :
+    ∀ (rest pre : List (String × Peer Rec)) (ol : List (Nat × MsgType × Nat)),
+      (List.range' pre.length rest.length).foldl (decideSmall cfg self now (fun _ => q) (fun _ => [])) (pre ++ rest, ol) =
+        (pre ++ rest, ol ++ (decidePhase cfg self now q rest).map (fun it => (it.1 + pre.length, it.2))) := by
+  intro rest
+  induction rest with
+  | nil => intro pre ol; simp [decidePhase]
+  | cons e rest ih =>
+    intro pre ol
+    have hget : (pre ++ e :: rest)[pre.length]? = some e := by simp
+    simp only [List.length_cons, List.range'_succ, List.foldl_cons]
+    rw [decideSmall_nil cfg self now q _ ol _ e hget]
+    have := ih (pre ++ [e]) (ol ++ (match decideEntry cfg self now q e with
+                  | some ts => [(pre.length, ts)]
+                  | none => []))
+    simp only [List.length_append, List.length_cons, List.length_nil, List.append_assoc, List.cons_append,
+      List.nil_append] at this
+    rw [this]
+    congr 1
+    rw [decidePhase_cons]
+    cases decideEntry cfg self now q e with
+    | none =>
+      simp only [List.nil_append, List.map_map]
+      congr 1
+      apply List.map_congr_left
+      intro a _
+      simp; omega
+    | some ts =>
+      simp only [List.map_cons, List.map_map, List.cons_append, List.nil_append, Nat.zero_add]
+      congr 2
+      apply List.map_congr_left
+      intro a _
+      simp; omega
+
 end Bobo.Tcp
